@@ -257,3 +257,47 @@ TEXTS.append(('commit-message', 'Fix bug #123: handle "quoted" paths\n\n'
               '--- not a diff\n+++ neither\n@@ nor this @@\n'
               'Binary files a and b differ\n'))
 TEXT_BY_NAME['commit-message'] = TEXTS[-1][1]
+
+# Unicode edge characters (combining mark, U+FEFF away from the start, the
+# code points around the surrogate range and the planes' ends, NBSP) and
+# whitespace shapes (tab, trailing blanks, whitespace-only lines)
+TEXTS.append(('unicode-edges', 'e\u0301 x\ufeffy \ud7ff\ue000\ufffd\uffff'
+              '\U00010000\U0010ffff\n\u00a0\n'))
+TEXTS.append(('whitespace-shapes', 'a \n\tb\t\n \n\t\n  c  '))
+TEXT_BY_NAME.update(dict(TEXTS[-2:]))
+
+
+def special_chars():
+    """Characters a text-handling library may treat specially, computed from
+    the platform's Unicode database: every control character (Cc), every
+    separator (Zs / Zl / Zp), everything str.splitlines() or str.split()
+    breaks on, format characters (Cf) of the BMP, one character per
+    normalisation behaviour (NFC / NFD / NFKC change it), the neighbours of
+    the surrogate range and the ends of the planes."""
+    import sys
+    import unicodedata
+    out = []
+    for cp in range(0x3000 + 1):
+        c = chr(cp)
+        cat = unicodedata.category(c)
+        if cat in ('Cc', 'Zs', 'Zl', 'Zp', 'Cf') or c.isspace() or \
+                len(('a' + c + 'b').splitlines()) != 1:
+            out.append(cp)
+    out += [0xFEFF, 0xFFF9, 0xFFFA, 0xFFFB, 0xFFFC, 0xFFFD, 0xFFFE, 0xFFFF,
+            0xD7FF, 0xE000, 0xF8FF, 0x10000, 0x1FFFF, 0xE0001, 0x10FFFF,
+            0x1F600]
+    # normalisation: a combining mark, a singleton (ANGSTROM SIGN), a
+    # composition exclusion (DEVANAGARI QA), a compatibility ligature, a
+    # precomposed letter, a Hangul syllable / jamo
+    out += [0x0301, 0x212B, 0x0958, 0xFB01, 0x00E9, 0xAC00, 0x1100, 0x00DF,
+            0x0130, 0x0131, 0x1E9E]
+    seen = set()
+    res = []
+    for cp in out:
+        if cp not in seen:
+            seen.add(cp)
+            res.append(cp)
+    return res
+
+
+SPECIAL_CHARS = special_chars()
